@@ -157,7 +157,7 @@ PktFrame(cls, pos) == [kind |-> "pkt", cls |-> cls, idx |-> 1, pos |-> pos, vals
 
 UInit(root, start) ==
     [st |-> "run", cur |-> start, stack |-> <<PktFrame(root, start)>>, err |-> <<>>,
-     reads |-> <<>>, evs |-> <<>>, regs |-> <<>>, result |-> NoneV]
+     reads |-> <<>>, evs |-> <<>>, regs |-> <<>>, result |-> NoneV, hookname |-> ""]
 
 OwnerIdx(stack) == CHOOSE i \in 1..Len(stack) :
                       stack[i].kind = "pkt" /\ \A j \in (i + 1)..Len(stack) : stack[j].kind # "pkt"
@@ -170,11 +170,25 @@ ListedName(f) == IF f.k = "Int" /\ f.desc.kind # "none" THEN "_described_" \o f.
 
 FailU(m) == [m EXCEPT !.st = "unwind"]
 
+\* after-unpack hooks (descriptor kind "verify": the parsed value must equal the computed one, else the hook raises)
+RECURSIVE AfterUnpackHooks(_, _, _)
+AfterUnpackHooks(fs, i, vals) ==       \* [ok, name]
+    IF i > Len(fs) THEN [ok |-> TRUE, name |-> ""]
+    ELSE IF fs[i].k = "Int" /\ fs[i].desc.kind = "verify"
+         THEN LET r == Eval(fs[i].desc.e, [vals |-> vals, raw |-> <<>>, cur |-> 0]) IN
+              IF r.ok /\ HasVal(vals, fs[i].name) /\ r.v = Lookup(vals, fs[i].name)
+              THEN AfterUnpackHooks(fs, i + 1, vals)
+              ELSE [ok |-> FALSE, name |-> ListedName(fs[i])]
+         ELSE AfterUnpackHooks(fs, i + 1, vals)
+
 \* one frame per step, innermost first; only packet frames contribute an entry
+\* (a frame whose after-unpack hook failed is past its last field: the entry names the described field)
 UnwindU(dp, m) ==
     LET fr == Top(m.stack)
         e  == IF fr.kind = "pkt"
-              THEN Append(m.err, [off |-> fr.fstart, name |-> ListedName(CurFieldOf(dp, fr)), cls |-> fr.cls])
+              THEN IF fr.idx > Len(dp[fr.cls].fields)
+                   THEN Append(m.err, [off |-> m.cur, name |-> m.hookname, cls |-> fr.cls])
+                   ELSE Append(m.err, [off |-> fr.fstart, name |-> ListedName(CurFieldOf(dp, fr)), cls |-> fr.cls])
               ELSE m.err
     IN [m EXCEPT !.stack = Pop(m.stack), !.err = e,
                  !.st = IF Len(m.stack) = 1 THEN "fail" ELSE "unwind"]
@@ -302,7 +316,9 @@ StepU(dp, raw, m) ==
     CASE m.st = "unwind" -> UnwindU(dp, m)
       [] fr.kind = "pkt" ->
             IF fr.idx <= Len(dp[fr.cls].fields) THEN ExecField(dp, raw, m)
-            ELSE IF Len(m.stack) = 1
+            ELSE LET h == AfterUnpackHooks(dp[fr.cls].fields, 1, fr.vals) IN      \* sync_after_unpack of the descriptors
+                 IF ~h.ok THEN FailU([m EXCEPT !.hookname = h.name])
+                 ELSE IF Len(m.stack) = 1
                  THEN [m EXCEPT !.st = "done", !.result = PktV(fr.cls, fr.vals), !.stack = <<>>]
                  ELSE Deliver(dp, raw, [m EXCEPT !.stack = Pop(@)], PktV(fr.cls, fr.vals))
       [] fr.kind = "rep" ->
@@ -331,11 +347,11 @@ DescRead(f, vals, explicit) ==       \* [ok, v]
          ELSE Eval(f.desc.e, [vals |-> vals, raw |-> <<>>, cur |-> 0])
 
 RECURSIVE SyncVals(_, _, _, _)
-SyncVals(fs, i, vals, explicit) ==      \* [ok, vals]
-    IF i > Len(fs) THEN [ok |-> TRUE, vals |-> vals]
+SyncVals(fs, i, vals, explicit) ==      \* [ok, vals, name]
+    IF i > Len(fs) THEN [ok |-> TRUE, vals |-> vals, name |-> ""]
     ELSE IF fs[i].k = "Int" /\ fs[i].desc.kind # "none"
          THEN LET r == DescRead(fs[i], vals, explicit) IN
-              IF ~r.ok THEN [ok |-> FALSE, vals |-> vals]
+              IF ~r.ok THEN [ok |-> FALSE, vals |-> vals, name |-> ListedName(fs[i])]
               ELSE SyncVals(fs, i + 1, SetVal(vals, fs[i].name, r.v), explicit)
          ELSE SyncVals(fs, i + 1, vals, explicit)
 
@@ -343,7 +359,7 @@ PFrame(cls, vals, pos) == [kind |-> "pkt", cls |-> cls, idx |-> 1, pos |-> pos, 
 
 PInit0(root, vals, regs) ==
     [st |-> "enter", frag |-> FInit, stack |-> <<PFrame(root, vals, 0)>>, err |-> <<>>,
-     writes |-> <<>>, evs |-> <<>>, regs |-> regs, out |-> <<>>, explicit |-> {}]
+     writes |-> <<>>, evs |-> <<>>, regs |-> regs, out |-> <<>>, explicit |-> {}, hookname |-> "", nexp |-> FALSE]
 
 FailP(p) == [p EXCEPT !.st = "unwind"]
 
@@ -351,7 +367,8 @@ UnwindP(dp, p) ==
     LET fr == Top(p.stack)
         e  == IF fr.kind = "pkt"
               THEN Append(p.err, [off |-> p.frag.cur,
-                                  name |-> IF fr.idx <= Len(dp[fr.cls].fields) THEN ListedName(CurFieldOf(dp, fr)) ELSE "?",
+                                  name |-> IF p.hookname # "" /\ Len(p.err) = 0 THEN p.hookname
+                                           ELSE IF fr.idx <= Len(dp[fr.cls].fields) THEN ListedName(CurFieldOf(dp, fr)) ELSE "?",
                                   cls |-> fr.cls])
               ELSE p.err
     IN [p EXCEPT !.stack = Pop(p.stack), !.err = e, !.st = IF Len(p.stack) = 1 THEN "fail" ELSE "unwind"]
@@ -447,8 +464,13 @@ StepP(dp, p) ==
     LET fr == Top(p.stack) IN
     CASE p.st = "unwind" -> UnwindP(dp, p)
       [] p.st = "enter" ->       \* pack_impl prologue: descriptor sync, innermost-pkt-pos
-            LET s == SyncVals(dp[fr.cls].fields, 1, fr.vals, IF Len(p.stack) = 1 THEN p.explicit ELSE {}) IN
-            IF ~s.ok THEN FailP([p EXCEPT !.st = "run"])
+            \* whose descriptors were disabled by an assignment: the root's explicit set; for nested packets none when they
+            \* came from a parse, all when they were built from keyword arguments (p.nexp)
+            LET allDesc == {dp[fr.cls].fields[i].name : i \in {j \in 1..Len(dp[fr.cls].fields) :
+                                dp[fr.cls].fields[j].k = "Int" /\ dp[fr.cls].fields[j].desc.kind # "none"}}
+                s == SyncVals(dp[fr.cls].fields, 1, fr.vals,
+                              IF Len(p.stack) = 1 THEN p.explicit ELSE IF p.nexp THEN allDesc ELSE {}) IN
+            IF ~s.ok THEN FailP([p EXCEPT !.st = "run", !.hookname = s.name])
             ELSE [p EXCEPT !.st = "run",
                            !.stack = SetTop(@, [fr EXCEPT !.vals = s.vals, !.pos = p.frag.cur,
                                                           !.bitsI = IF Len(p.stack) = 1 THEN fr.bitsI ELSE 0])]
